@@ -121,6 +121,7 @@ func main() {
 	sites := []string{}
 	osSites := []string{}
 	stepHook := false
+	nGlobals := 0
 
 	for _, dir := range pkgDirs {
 		abs := filepath.Join(*repo, dir)
@@ -180,6 +181,30 @@ func main() {
 			die("type-check %s: %v", dir, err)
 		}
 		imp.pkgs[modPath+"/"+dir] = pkg
+
+		// 0. package-level variables: a generated init() hands their addresses to
+		// vhook (C19 compares them before and after executions)
+		{
+			var gl []string
+			for _, n := range pkg.Scope().Names() {
+				if v, ok := pkg.Scope().Lookup(n).(*types.Var); ok && n != "_" {
+					_ = v
+					gl = append(gl, n)
+				}
+			}
+			var b strings.Builder
+			b.WriteString("//go:build verif\n\npackage " + pkg.Name() + "\n\nimport \"" + modPath + "/internal/vhook\"\n\nfunc init() {\n\tvhook.RegisterGlobals(\"" + dir + "\", map[string]any{\n")
+			for _, n := range gl {
+				b.WriteString("\t\t\"" + n + "\": &" + n + ",\n")
+			}
+			b.WriteString("\t})\n}\n")
+			dst := filepath.Join(ovDir, strings.ReplaceAll(dir, "/", "__")+"__verif_globals.go")
+			if err := os.WriteFile(dst, []byte(b.String()), 0o644); err != nil {
+				die("%v", err)
+			}
+			replace[filepath.Join(abs, "verif_globals_gen.go")] = dst
+			nGlobals += len(gl)
+		}
 
 		for _, f := range files {
 			src := srcs[f]
@@ -386,7 +411,7 @@ func main() {
 	writeJSON("overlay_plain.json", plainReplace)
 	sort.Strings(sites)
 	sort.Strings(osSites)
-	meta := map[string]any{"map_range_sites": sites, "os_sites": osSites, "step_hook": stepHook}
+	meta := map[string]any{"map_range_sites": sites, "os_sites": osSites, "step_hook": stepHook, "package_level_vars_registered": nGlobals}
 	data, _ := json.MarshalIndent(meta, "", " ")
 	os.WriteFile(filepath.Join(*work, "overlay_meta.json"), data, 0o644)
 	if !*quiet {
